@@ -250,7 +250,10 @@ def unit_bed12(U):
                     bad = False
                     for ex, cds, tc, expect in (([(10, 20), (31, 40)], [(12, 18), (33, 35)], (10, 40), "ok"), ([], [], (5, 9), "ok"),
                                                 ([(11, 20)], [], (10, 20), "ValueError"), ([(10, 19)], [], (10, 20), "ValueError"),
-                                                ([(31, 40), (10, 20)], [(33, 35), (12, 18)], (10, 40), "ok")):
+                                                ([(31, 40), (10, 20)], [(33, 35), (12, 18)], (10, 40), "ok"),
+                                                # overlapping / nested blocks: the block with the largest start is not the one reaching the end
+                                                ([(501, 600), (520, 550)], [], (501, 600), "ValueError"), ([(301, 360), (340, 400), (350, 380)], [], (301, 400), "ValueError"),
+                                                ([(10, 20), (15, 40), (30, 35)], [], (10, 40), "ValueError")):
                         try:
                             r = _native_bed12(argform, ex, cds, tc, thick_mode)
                             fields = r.split("\t")
